@@ -20,6 +20,7 @@
 
 from datetime import datetime
 import json
+import hashlib
 import pickle
 import random
 from io import BytesIO
@@ -1797,6 +1798,22 @@ class Transaction(object):
                         tid_keys = inp_keys
                 self.inputs[tid].keys = inp_keys
                 self.inputs[tid].update_scripts(hash_type=hash_type)
+                if tid_keys and self.inputs[tid].address and self.inputs[tid].redeemscript and \
+                        self.inputs[tid].script_type in ['p2sh_multisig', 'p2sh_p2wsh']:
+                    # The input was created from an address: the keys must make up the script that address commits to
+                    try:
+                        address_hash = deserialize_address(self.inputs[tid].address)['public_key_hash_bytes']
+                    except (EncodingError, BKeyError):
+                        address_hash = None
+                    script_sha256 = hashlib.sha256(self.inputs[tid].redeemscript).digest()
+                    if address_hash and address_hash not in [hash160(self.inputs[tid].redeemscript), script_sha256,
+                                                             hash160(b'\x00\x20' + script_sha256)]:
+                        self.inputs[tid].keys = []
+                        self.inputs[tid].redeemscript = b''
+                        if fail_on_unknown_key:
+                            raise TransactionError("The provided keys do not make up the script of address %s of input %d"
+                                                   % (self.inputs[tid].address, tid))
+                        continue
             if self.inputs[tid].script_type == 'coinbase':
                 raise TransactionError("Can not sign coinbase transactions")
             pub_key_list = [k.public_byte for k in self.inputs[tid].keys]
